@@ -115,7 +115,12 @@ def drive(gen, script, sent, thrown):
     for i, step in enumerate(script):
         try:
             if step.startswith("send"):
-                v = None if step == "send(None)" else sent.setdefault(i, Tok(f"v{i}"))
+                if step == "send(None)":
+                    v = None
+                elif step == "send([device])":
+                    v = [outs[-1][1].obj]
+                else:
+                    v = sent.setdefault(i, Tok(f"v{i}"))
                 r = gen.send(v)
                 outs.append(("yield", r))
             elif step.startswith("throw(GeneratorExit"):
